@@ -253,3 +253,55 @@ CONTRACTS.append(Contract(
                                      it.to_zbool(it.truth(it.run.ghost["sub"].fields.get("deprecated"))) == it.to_zbool(it.truth(env.lookup("deprecated"))),
                                      z3.BoolVal(it.run.ghost["using_kwds"].get("min_rounds") == 7 and it.run.ghost["using_kwds"].get("relaxed") is True)))],
 ))
+
+
+# ---- get_scheme_options_with_flag: the category's wildcard options count as category-specific -------------------------------
+def _gso_setup(variant):
+    def setup(it, args):
+        v = {n: SStr(z3.String(n), "str") for n in ("all_default", "all_cat", "scheme_default", "scheme_cat")}
+        maps = {
+            ("all", None): {"min_rounds": v["all_default"]},
+            ("all", "admin"): {"max_rounds": v["all_cat"]} if variant in ("wildcard", "both") else {},
+            ("des_crypt", None): {"vary_rounds": v["scheme_default"]},
+            ("des_crypt", "admin"): {"default_rounds": v["scheme_cat"]} if variant in ("scheme", "both") else {},
+        }
+        self = args["self"]
+        self.fields["_get_scheme_optionmap"] = SStub(lambda i, a, k: SDict(dict(maps[(i.resolve(a[0]), i.resolve(a[1]))])), "_get_scheme_optionmap")
+        self.fields["get_base_handler"] = SStub(lambda i, a, k: "handler", "get_base_handler")
+        self.fields["expand_settings"] = SStub(lambda i, a, k: ("min_rounds", "max_rounds", "vary_rounds", "default_rounds", "rounds"), "expand_settings")
+        it.run.ghost["v"] = v
+        return None
+
+    return setup
+
+
+def _gso_post(variant, category):
+    def post(it, env):
+        kw, flag = it.static_items_req(it.resolve(env.lookup("result")))
+        kw = it.resolve(kw)
+        v = it.run.ghost["v"]
+        want = {"min_rounds": "all_default", "vary_rounds": "scheme_default"}
+        if category:
+            if variant in ("wildcard", "both"):
+                want["max_rounds"] = "all_cat"
+            if variant in ("scheme", "both"):
+                want["default_rounds"] = "scheme_cat"
+        if set(kw.items) != set(want):
+            return False
+        same = [it.to_zbool(it.truth(it.cmp_vals("==", kw.items[k], v[n]))) for k, n in want.items()]
+        want_flag = bool(category) and variant != "none"
+        return z3.And(z3.BoolVal(it.resolve(flag) is want_flag), *same)
+
+    return post
+
+
+for _variant in ("none", "wildcard", "scheme", "both"):
+    for _cat in (None, "admin"):
+        CONTRACTS.append(Contract(
+            f"get_scheme_options_with_flag[category options: {_variant}; category={_cat!r}]", f"{C}::_CryptConfig.get_scheme_options_with_flag",
+            params={"self": Obj(), "scheme": Const("des_crypt"), "category": Const(_cat)},
+            setup=_gso_setup(_variant),
+            ensures=[("options = global 'all', then the category's 'all', then the scheme's, then the scheme's for the category; the flag is set exactly when the category contributes an option of its own (wildcard or per scheme)",
+                      _gso_post(_variant, _cat))],
+            descr="symbolic option values",
+        ))
